@@ -85,7 +85,7 @@ def _scores(tier):
     return out
 
 
-def _performance(part, seed, extra=True, match_grace=False):
+def _performance(part, seed, extra=True, match_grace=False, extremes=False):
     """note-for-note performance with positive IOIs/durations (tempo varies), plus an inserted note; alignment with match/insertion/deletion/ornament"""
     import random
     import partitura.performance as pf
@@ -111,6 +111,11 @@ def _performance(part, seed, extra=True, match_grace=False):
             continue
         if last_beat is not None and r["onset_beat"] > last_beat:
             bp = 0.4 + 0.3 * rng.random()
+            if extremes:
+                # a fermata-like standstill in the middle (3.6 s per beat) and a presto stretch (0.085 s per beat)
+                n_on = len({float(x["onset_beat"]) for x in na})
+                idx = sorted({float(x["onset_beat"]) for x in na}).index(float(r["onset_beat"]))
+                bp = 3.6 if n_on // 3 <= idx < n_on // 3 + 2 else (0.085 if idx >= 2 * n_on // 3 else 0.5)
             t += (r["onset_beat"] - last_beat) * bp
         last_beat = r["onset_beat"]
         on = t + (0.01 * rng.random() if k % 3 else 0.0)
@@ -138,12 +143,17 @@ def bounded(b):
     b.scopes.append("%d scores x %d seeds x 5 normalisations x 2 methods" % (len(scores), 2 if b.tier == "quick" else 6))
     for sname, mk in scores:
         for seed in range(2 if b.tier == "quick" else 6):
+          for extremes in (False, True):
+            if extremes and seed > 0:
+                continue
             part = mk()
-            ppart, al = _performance(part, b.seed * 100 + seed)
+            ppart, al = _performance(part, b.seed * 100 + seed, extremes=extremes)
             al_before = copy.deepcopy(al)
             for norm in norms:
                 for method in ("average", "derivative"):
                     case = {"score": sname, "seed": seed, "normalization": norm, "tempo_smooth": method}
+                    if extremes:
+                        case["tempo_with_a_standstill_and_a_presto"] = True
                     ok, enc = b.guard("codec/encode_no_exception", case, lambda: pc.encode_performance(part, ppart, al, beat_normalization=norm, tempo_smooth=method))
                     if not ok:
                         continue
@@ -166,7 +176,7 @@ def bounded(b):
                         for o, d in pairs:
                             if abs((d["note_off"] - d["note_on"]) - (o["note_off"] - o["note_on"])) > 2e-3:
                                 good, what = False, "duration %.4f decoded as %.4f" % (o["note_off"] - o["note_on"], d["note_off"] - d["note_on"])
-                            if abs(d["velocity"] - o["velocity"]) > 1:
+                            if d["velocity"] != o["velocity"]:
                                 good, what = False, "velocity %r decoded as %r" % (o["velocity"], d["velocity"])
                             if d["midi_pitch"] != o["midi_pitch"]:
                                 good, what = False, "pitch"
@@ -197,7 +207,7 @@ def bounded(b):
                                 o = orig[sid_to_pid[sid]]
                                 if abs((d["note_off"] - d["note_on"]) - (o["note_off"] - o["note_on"])) > 2e-3:
                                     good, what = False, "note %s: duration %.4f decoded as %.4f" % (sid, o["note_off"] - o["note_on"], d["note_off"] - d["note_on"])
-                                if abs(d["velocity"] - o["velocity"]) > 1 or d["midi_pitch"] != o["midi_pitch"]:
+                                if d["velocity"] != o["velocity"] or d["midi_pitch"] != o["midi_pitch"]:
                                     good, what = False, "note %s: velocity/pitch" % sid
                         b.case("codec/decode_of_encode_reproduces_onsets_durations_velocities", good, case, what)
             # matched note table and time maps
